@@ -42,7 +42,8 @@ with no hypothesis at all (any tree, linked destinations included).  CONTRAST th
 mechanism switched off (`Ex.tarOneV`, anchored to the executed bodies by `variant_is_code`) violate the property on a
 concrete archive the code refuses: `guardless_escapes` (the guard), `unchecked_name_escapes` (lexical test),
 `prefix_without_separator_escapes` (the separator of the prefix), `unchecked_linkname_escapes` (hard-link target test),
-`ignored_copy_error_is_silent` (returning the copy / close error). -/
+`ignored_copy_error_is_silent` (returning the copy / close error), `remembered_parent_escapes` (walking every entry path
+from the root every time: a loop that remembers walked parents escapes after a skipped-kind entry). -/
 namespace C19
 open Ex
 
@@ -1289,6 +1290,28 @@ example : (tarExtractWithMaskAt
     (tarExtractWithMaskAt
     { nodes := [([], .dir 0o755), ([[101]], .dir 0o755), ([[100]], .symlink [47, 101])] } [] [47, 100] 0o777 cutArchive).1.get
       [[101], [97]] = some (.file 0) := by decide
+
+/-- a fifo `s/x` (a kind the tar extractor skips: nothing is created, not even `s`), the link `s -> /e`, the file `s/y` -/
+def attackGhost : List Entry :=
+  [{ kind := .other, name := [115, 47, 120] }, { kind := .symlink, name := [115], link := [47, 101] },
+   { kind := .reg, name := [115, 47, 121], data := [1] }]
+
+/-- **every entry path must be walked from the root, every time** (round 7): a loop that REMEMBERS the parent
+    directories the guard has walked and then looks at the entry's own name only (`Ex.tarExtractVet`; with nothing
+    remembered an iteration is the code's, `tarOneVet_nil`) writes `/e/y` outside the destination through the link — the
+    skipped entry `s/x` made it remember `s` without creating it, the link entry then took that name.  The same loop
+    refuses the archive without the skipped entry (the shape matters), and the code refuses both and creates nothing;
+    a skipped entry itself changes nothing and creates no ancestors (`skipped_flag_noop`). -/
+theorem remembered_parent_escapes :
+    (tarExtractVet [] worldFs demoRoot 0o777 attackGhost).2 = true ∧
+    (tarExtractVet [] worldFs demoRoot 0o777 attackGhost).1.get [[101], [121]] ≠ none ∧
+    (tarExtractVet [] worldFs demoRoot 0o777 attackGhost.tail).2 = false ∧
+    (tarExtractR worldFs demoRoot 0o777 attackGhost).2 = false ∧
+    (tarExtractR worldFs demoRoot 0o777 attackGhost).1.get [[101], [121]] = none ∧
+    (tarExtractR worldFs demoRoot 0o777 (attackGhost.take 1)).2 = true ∧
+    (tarExtractR worldFs demoRoot 0o777 (attackGhost.take 1)).1.get [[100], [115]] = none ∧
+    (∀ fs root mask e, (tarOneVet [] fs root mask e).1 = tarOneR fs root mask e) :=
+  ⟨by decide, by decide, by decide, by decide, by decide, by decide, by decide, tarOneVet_nil⟩
 
 /-- the hypotheses of the spelled theorems hold together: from `/e` the spelling `../d/.` names the destination `/d` of
     `worldFs` -/
